@@ -204,13 +204,14 @@ BREAK_NAMES = ['x\r  capability owner', 'z\n  capability owner', 'q\r\n  capabil
 LINE_BREAKERS = '\r\n\x0b\x0c\x1c\x1d\x1e\x85\u2028\u2029'
 CAPS = ['owner', 'admin', 'trusted', 'foo', 'bar', '-foo', '--foo', '-admin', '-owner', '-OWNER', '-Owner', 'OWNER', 'Owner', 'oWNER', 'FOO[',
         '--owner', '--OWNER', '----owner', '--admin', '#chan,--op', '#other,owner', '#other,foo', '#other,-foo',
-        '#chan,op', '#chan,foo', '#chan,-foo', '#chan,owner', '#other,op', 'user.register', '-user.register', '-register', '-user',
+        '#chan,op', '#chan,foo', '#chan,-foo', '#chan,owner', '#other,op', '#chan-ops,op', '#chan2,op', '#channel,foo', '#chanx,-op',
+        '#others,op', 'user.register', '-user.register', '-register', '-user',
         '-add', '-admin.capability', 'admin.capability.add', 'halfop', 'op']
 HOSTILE_CAPS = [' owner', 'owner ', '\towner', 'owner\n', '\nowner', 'own er', '', ' ', '\x0bowner', 'owner\x0c', '\xa0owner',
                 'owner\r', '-owner ', ' -owner', 'a b', ',owner', '#chan, owner', 'owner,', '\\owner', '"owner"', 'ｏwner']
 HOSTMASKS = ACTORS + [OWNER, '*!*@evil.host', '*!*@bob.host', 'x!y@z', 'mal!m@mal.host', '*!*@mal.host',
                       'a!b@c\n', '*!*@*', '?!?@?', 'x', '', 'all', 'EVE!E@EVIL.HOST', 'nick!user@ho st',
-             'ev*!*@*', '*ve!*@*', 'm*!*@mal.host', '*l!m@*']      # pairs that share hostmasks without matching each other
+             'ev*!*@*', '*ve!*@*', 'm*!*@mal.host', '*l!m@*', 'ann*!*@*', '*bea!*@*', 'z?x!*@*', 'z*!q@*']      # pairs that share hostmasks without matching each other
 CHANS = ['#chan', '#CHAN', '#other', '#chan\n', '#chan ', 'chan', '#a,b', '&x']
 PLUGINS = ['User', 'user', 'USER', 'Admin', 'Channel', 'Misc', 'Owner', 'nosuch', '', 'Us er']
 PCOMMANDS = ['register', 'whoami', 'capability', 'hostmask', 'ping', 'no-such', 'regi_ster', 'REGISTER', 'list', 'a b', '',
@@ -248,7 +249,9 @@ def gen_cmd(r, S=None):
         return (k, [name(), pick(r, NAMES, HOSTILE_NAMES, 0.4), pw()])
     if k == 'identify': return (k, [name(), pw()])
     if k == 'unidentify': return (k, [])
-    if k == 'hostmaskAdd': return (k, [name(), r.choice(HOSTMASKS), pw()])
+    if k == 'hostmaskAdd':
+        if r.random() < 0.15: return (k, ['__PAIR__', '', ''])       # expanded in run_history: two masks sharing hostmasks
+        return (k, [name(), r.choice(HOSTMASKS), pw()])
     if k == 'hostmaskRemove':
         hms = [(u['name'], h) for _, u in users for h in u['hostmasks'] if u['name']]
         if hms and r.random() < 0.6:
@@ -454,6 +457,13 @@ def run_history(b, r, n_steps, out, hist_id):
             pending.append(('reload', []))          # … and the load that stops there
         if k in ('register', 'changename') and any(ch in args[0 if k == 'register' else 1] for ch in LINE_BREAKERS) and r.random() < 0.6:
             pending.append(('flushReload', []))     # whatever such a name did, it must not come back as extra lines
+        if k == 'hostmaskAdd' and args[0] == '__PAIR__':
+            # one account takes a wildcard mask, another asks for a mask that shares hostmasks with it without matching it
+            # as a literal string: setUser refuses, and the refusal must leave nothing behind
+            m1, m2 = r.choice([('ann*!*@*', '*bea!*@*'), ('*bea!*@*', 'ann*!*@*'), ('z?x!*@*', 'z*!q@*'), ('q*!*@h.example', '*!u@*.example')])
+            (n1, a1, p1), (n2, a2, p2) = r.sample([('bob', ACTORS[1], 'pw1'), ('opp', ACTORS[2], 'pw1'), ('adm', ACTORS[3], 'pw2')], 2)
+            args = [n1, m1, p1]; actor = a1
+            pending.insert(0, ('hostmaskAdd', [n2, m2, p2], a2))
         if k == 'chanCapSet' and not pending and r.random() < 0.3:
             # the op of #chan makes op (or something else) a channel-wide capability THERE; whoever is op nowhere then tries
             # the same in a channel nobody has configured
@@ -629,6 +639,12 @@ def run_history(b, r, n_steps, out, hist_id):
                         msgs.append('account %d gained %r through chanCapAdd on %r by %s (entitled for that channel only)'
                                     % (i, x, args[0], actor))
         changed = enc_state(cur) != enc_state(prev)
+        if k == 'hostmaskAdd' and not ok:
+            hm_before = {i: sorted(u_['hostmasks']) for i, u_ in prev['users']}
+            for i, u_ in cur['users']:
+                if i in hm_before and sorted(u_['hostmasks']) != hm_before[i]:
+                    msgs.append('hostmask add %r by %s was answered with an error, yet account %d now has the hostmasks %s (before: %s)'
+                                % (args, actor, i, sorted(u_['hostmasks']), hm_before[i]))
         if changed and guard_applies(k) and admin_guarded and not admin_ok:
             msgs.append('%s by %s changed the state, but the accounts recognising that hostmask now are %s and none of them is '
                         'an admin (a login that has timed out?)' % (k, actor, who_ids))
